@@ -3,6 +3,9 @@
 //! all judging is done by TLC.
 
 mod mock;
+mod cmds;
+mod codec;
+mod filt;
 mod session;
 mod wire;
 
@@ -28,6 +31,9 @@ fn main() {
     let code = match args[1].as_str() {
         "session" => session::main(rest),
         "wire" => wire::main(rest),
+        "codec" => codec::main(rest),
+        "filter" => filt::main(rest),
+        "cmds" => cmds::main(rest),
         other => {
             eprintln!("unknown subcommand {other}");
             2
